@@ -111,6 +111,45 @@ def gen(rng, k, dll=None):
                 inject.append(dict(t=tt, to=0, id=R.ref_can_id(7, 0xEC00 + LOCAL_E, PEER), data=[17, cnt, max(nxt, 0) & 255, 255, 255] + R.ref_pgn3(0xD000), via='listener'))
             tt += rng.choice([2000, 30000, 400000, 1300000])
         t_stream_end = max(t_stream_end, tt)
+    # directed family: the "peer" ends the stack's own connection-mode transfers with a Connection Abort — right after the
+    # RTS, after the first window, or twice — several transfers in a row (a session number or a table entry that is not
+    # returned shows as a stack that is not idle at the end, or that refuses the follow-up transfer)
+    elif rng.random() < 0.25:
+        unit = 60 if dll == 'j1939-22' else 7
+        tt = 2000
+        for i in range(rng.choice([1, 2, 9])):
+            ln = big + rng.randint(0, 30)
+            script.append(dict(t=tt, s=0, op='send', a=[0, 0xD0, PEER, 6, LOCAL_E, dict(seed=rng.getrandbits(20), len=ln)]))
+            ta = tt + rng.choice([1500, 3000, 20000])
+            if rng.random() < 0.4:
+                # one window first
+                if dll == 'j1939-22':
+                    inject.append(dict(t=tt + 1000, to=0, id=R.ref_can_id(7, 0x4D00 + LOCAL_E, PEER), data=fd_cm(1, i % 8, 0xFFFFFF, 1, 1, 0, 0xD000), fd=True, via='listener'))
+                else:
+                    inject.append(dict(t=tt + 1000, to=0, id=R.ref_can_id(7, 0xEC00 + LOCAL_E, PEER), data=[17, 1, 1, 255, 255] + R.ref_pgn3(0xD000), via='listener'))
+            for rep in range(rng.choice([1, 1, 2])):
+                if dll == 'j1939-22':
+                    inject.append(dict(t=ta + rep * 700, to=0, id=R.ref_can_id(7, 0x4D00 + LOCAL_E, PEER),
+                                       data=fd_cm(15, i % 8, 0xFFFFFF, 0xFFFFFF, 0xFF, rng.choice([1, 2, 3, 250]), 0xD000), fd=True, via='listener'))
+                else:
+                    inject.append(dict(t=ta + rep * 700, to=0, id=R.ref_can_id(7, 0xEC00 + LOCAL_E, PEER),
+                                       data=[255, rng.choice([1, 2, 3, 250]), 255, 255, 255] + R.ref_pgn3(0xD000), via='listener'))
+            tt = ta + 60000
+        t_stream_end = max(t_stream_end, tt)
+        inject.sort(key=lambda e: e['t'])
+    # directed family: the peer's last data packet crosses the stack's own time-out abort — it is handled while the abort is
+    # still being handed to the bus, completes the session and removes it under the job thread's feet
+    on_tx = []
+    if dll == 'j1939-21' and rng.random() < 0.12:
+        size = rng.choice([9, 13, 14])
+        pl = [rng.randrange(256) for _ in range(14)]
+        t0 = t_stream_end + 1_400_000
+        rid = R.ref_can_id(7, 0xEC00 + LOCAL_E, PEER)
+        did = R.ref_can_id(7, 0xEB00 + LOCAL_E, PEER)
+        inject.append(dict(t=t0, to=0, id=rid, data=[16, size, 0, 2, 255] + R.ref_pgn3(0xD300), via='listener'))
+        inject.append(dict(t=t0 + 2000, to=0, id=did, data=[1] + pl[:7], via='listener'))
+        on_tx.append(dict(s=0, pgn16=0xEC00 + PEER, data0=255, nth=1, deliver=[dict(id=did, data=[2] + pl[7:14])]))
+        t_stream_end = t0 + 2000
     # the stack may itself be sending while the stream arrives
     for _ in range(rng.choice([0, 0, 1, 2])):
         ts = rng.randint(1000, max(2000, t_stream_end))
@@ -132,8 +171,11 @@ def gen(rng, k, dll=None):
     stacks = [dict(dll=dll, max_cmdt=rng.choice([1, 2, 8, 255]), subs=[dict(cid=1, filt=LOCAL_E), dict(cid=2, filt=None)],
                    cas=[dict(name=77, addr=LOCAL_CA, bypass=True, subs=[3], req=[4])]),
               dict(dll=dll, max_cmdt=3, subs=[dict(cid=11, filt=PEER)], cas=[], on_bus=False)]
-    return dict(stacks=stacks, lat=[500], jit=[1], script=script, inject=inject, horizon=t_quiet + 5_000_000, dll=dll,
-                t_quiet=t_quiet, follow=[p1, p2])
+    sc = dict(stacks=stacks, lat=[500], jit=[1], script=script, inject=inject, horizon=t_quiet + 5_000_000, dll=dll,
+              t_quiet=t_quiet, follow=[p1, p2])
+    if on_tx:
+        sc['on_tx'] = on_tx
+    return sc
 
 
 def runner(sc):
@@ -142,6 +184,11 @@ def runner(sc):
 
 def oracle(sc, res):
     v = []
+    for e in res.trace:
+        if e[2] == 'STALL':
+            # a handler of the stack looped without returning (the watchdog of the virtual-time harness broke it up)
+            v.append(dict(kind='handler-did-not-return', stack=e[1], thread=e[3], t=e[0]))
+            break
     if 't_quiet' not in sc:          # corpus scenarios: generic liveness checks only
         for j, js in enumerate(res.job):
             if js != 'alive':
